@@ -36,7 +36,7 @@ HASHSEEDS = ["0", "1", "2", "3", "12345", "17", "99", "424242", "7", "31337", "5
 
 def budget(tier: str) -> int:
     """cases for oracle (a)"""
-    return 1000 if tier == "quick" else 32000
+    return 1000 if tier == "quick" else 16000
 
 
 def time_budget(tier: str) -> float:
